@@ -1,22 +1,23 @@
 (* C01 — A failed or aborted operation never damages or leaves behind files.
    Property theorems only; each is closed by an exact lemma and followed by Print Assumptions. *)
 From stdpp Require Import gmap.
-From Coq Require Import NArith.
-From PV Require Import C01.FS C01.FSFacts C01.Model C01.Proofs.
+From Coq Require Import NArith String List Bool.
+From PV Require Import C01.FS C01.FSFacts C01.Model C01.Proofs C01.ProofsPdf C01.ProofsAll C01.Table C01.Generated C01.ProofsTable.
 
 (* staged_fault_safe for the api skeleton (every single-output *File function of pkg/api:
    open inputs, openStagedOutput, deferred cleanup/commit, body).
    For every temp-name supply that returns unused names, every initial filesystem m0, every path
    relation (inF / outF / what exists in m0), every body (any list of write chunks) and exactly
    one cause of failure (one injected fault at any call index with a succeeding body, or a body ending
-   in Err/Panic with no injected fault; Panic only for flag-keyed skeletons):
+   in Err/Panic with no injected fault; `safe_for k fin`: any ending for a flag-keyed skeleton, no Panic for
+   an err-keyed or undeferred one, nothing for a shadowed-err one):
    if the run does not return Ok then every path has the same contents and mode as before and the
    set of paths is the same — unless the output is a new file, inputs are open, and the single
    fault hit the close of an input inside commit (then the complete new output is kept). *)
 Theorem api_staged_fault_safe_partial : forall fresh,
   (forall m, m !! fresh m = None) ->
   forall pl fin, one_cause pl fin ->
-  forall k ins inF outF chunks m0 tr, (k = KFlag \/ fin <> CPanic) ->
+  forall k ins inF outF chunks m0 tr, safe_for k fin ->
   forall r w', api_file pl fresh k ins inF outF chunks fin (W m0 0 tr) = (r, w') -> r <> COk ->
   unchanged m0 (wfs w') \/
   (fin = COk /\ pl <> nofault /\ kept_new_output m0 ins inF outF (wfs w')).
@@ -28,7 +29,7 @@ Print Assumptions api_staged_fault_safe_partial.
 Theorem api_staged_fault_safe : forall fresh,
   (forall m, m !! fresh m = None) ->
   forall pl fin, one_cause pl fin ->
-  forall k ins inF outF chunks m0 tr, (k = KFlag \/ fin <> CPanic) ->
+  forall k ins inF outF chunks m0 tr, safe_for k fin ->
   (ins = [] \/ forall o, outF = Some o -> opt_eqb inF outF = false -> is_Some (m0 !! o)) ->
   forall r w', api_file pl fresh k ins inF outF chunks fin (W m0 0 tr) = (r, w') -> r <> COk ->
   unchanged m0 (wfs w').
@@ -59,7 +60,84 @@ Theorem err_keyed_panic_refuted :
 Proof. exact err_keyed_panic_refuted_proof. Qed.
 Print Assumptions err_keyed_panic_refuted.
 
+(* staged_fault_safe for the write path of pkg/pdfcpu (createStagedFile + finishStagedFile:
+   WriteContext's file path, writeReader, CopyFile): full strength, no residual case *)
+Theorem pdf_staged_fault_safe : forall fresh,
+  (forall m, m !! fresh m = None) ->
+  forall pl fin, one_cause pl fin ->
+  forall k input path chunks m0 tr, safe_for k fin ->
+  forall r w', pdf_staged pl fresh k input path chunks fin (W m0 0 tr) = (r, w') -> r <> COk ->
+  unchanged m0 (wfs w').
+Proof. exact pdf_staged_fault_safe_proof. Qed.
+Print Assumptions pdf_staged_fault_safe.
+
+(* pdfcpu.writeNewFile (no overwrite): the reserved file is removed on every error return *)
+Theorem write_new_file_fault_safe :
+  forall pl fin, one_cause pl fin -> fin <> CPanic ->
+  forall path chunks m0 tr r w', write_new_file pl path chunks fin (W m0 0 tr) = (r, w') -> r <> COk ->
+  unchanged m0 (wfs w').
+Proof. exact write_new_file_fault_safe_proof. Qed.
+Print Assumptions write_new_file_fault_safe.
+
+Theorem write_context_panic_refuted :
+  exists r w', pdf_staged nofault fresh_path KErr None 2%positive [[1%N]] CPanic (W refute_m0 0 []) = (r, w') /\
+    r = CPanic /\ wfs w' !! 2%positive = Some (File [1%N] mode_new) /\ ~ unchanged refute_m0 (wfs w').
+Proof. exact write_context_panic_refuted_proof. Qed.
+Print Assumptions write_context_panic_refuted.
+
+Theorem shadowed_err_commits_on_error_refuted :
+  exists r w', pdf_staged nofault fresh_path KAlways None 2%positive [[1%N]] CErr (W refute_m0 0 []) = (r, w') /\
+    r = CErr /\ wfs w' !! 2%positive = Some (File [1%N] mode_new) /\ ~ unchanged refute_m0 (wfs w').
+Proof. exact shadowed_err_commits_on_error_refuted_proof. Qed.
+Print Assumptions shadowed_err_commits_on_error_refuted.
+
+Theorem nodefer_panic_leaks_refuted :
+  exists r w' t, pdf_staged nofault fresh_path KNone None 2%positive [[1%N]] CPanic (W refute_m0 0 []) = (r, w') /\
+    r = CPanic /\ refute_m0 !! t = None /\ wfs w' !! t = Some (File [1%N] mode_new).
+Proof. exact nodefer_panic_leaks_refuted_proof. Qed.
+Print Assumptions nodefer_panic_leaks_refuted.
+
+(* staged_fault_safe: the three statements above as one, for every modelled protocol instance P
+   (api skeleton / pdfcpu staged write / writeNewFile, with its key and path arguments), every temp-name
+   supply, every initial filesystem, every body and exactly one cause of failure: if the run does not
+   return Ok, every path has its old contents and mode and the set of paths is unchanged. *)
+Theorem staged_fault_safe : forall fresh,
+  (forall m, m !! fresh m = None) ->
+  forall pl fin, one_cause pl fin ->
+  forall P chunks m0 tr, protocol_safe_for P fin m0 ->
+  forall r w', run_protocol pl fresh P chunks fin (W m0 0 tr) = (r, w') -> r <> COk ->
+  unchanged m0 (wfs w').
+Proof. exact staged_fault_safe_proof. Qed.
+Print Assumptions staged_fault_safe.
+
+(* all_file_functions_safe: in the table regenerated from the Go sources, every function that writes one
+   output through a staging helper and is not in the list of reported defects (panic_unsafe) keys its
+   deferred decision on a completion flag; so api_staged_fault_safe* / pdf_staged_fault_safe apply to it
+   with k = KFlag for every ending of the body, panic included *)
+Theorem all_file_functions_safe :
+  forall r, In r table -> single_output r = true -> name_in panic_unsafe r = false ->
+  key_of_dkey (f_key r) = Some KFlag /\ forall fin, safe_for KFlag fin.
+Proof. exact all_file_functions_safe_proof. Qed.
+Print Assumptions all_file_functions_safe.
+
+(* every single-output function except pdfcpu.WriteContext is at least fault- and error-safe *)
+Theorem all_file_functions_fault_safe :
+  forall r, In r table -> single_output r = true -> name_in error_unsafe r = false ->
+  exists k, key_of_dkey (f_key r) = Some k /\ forall fin, fin <> CPanic -> safe_for k fin.
+Proof. exact all_file_functions_fault_safe_proof. Qed.
+Print Assumptions all_file_functions_fault_safe.
+
 (* non-vacuity: the temp-name supply used for extraction satisfies the hypothesis; both causes exist *)
 Example C01_nonvacuous :
-  (forall m, m !! fresh_path m = None) /\ one_cause nofault CPanic /\ one_cause (single 3) COk.
-Proof. split; [exact fresh_path_spec|]. split; [left; reflexivity|right; split; [reflexivity|exists 3; reflexivity]]. Qed.
+  (forall m, m !! fresh_path m = None) /\ (forall m, m !! fresh_hi m = None) /\
+  one_cause nofault CPanic /\ one_cause (single 3) COk /\ safe_for KErr CErr /\ safe_for KFlag CPanic.
+Proof.
+  split; [exact fresh_path_spec|]. split; [exact fresh_hi_spec|]. split; [left; reflexivity|].
+  split; [right; split; [reflexivity|exists 3; reflexivity]|]. split; [right; split; discriminate|left; reflexivity].
+Qed.
+Example C01_table_nonvacuous :
+  existsb (fun r => String.eqb (f_name r) "TrimFile" && dkey_eqb (f_key r) DFlag) table = true /\
+  existsb (fun r => String.eqb (f_name r) "MergeAppendFile" && dkey_eqb (f_key r) DFlag) table = true /\
+  existsb (fun r => String.eqb (f_name r) "writeCutOutputWith" && dkey_eqb (f_key r) DFlag) table = true /\
+  60 <= length (filter single_output table).
+Proof. exact table_nonvacuous_proof. Qed.
